@@ -352,7 +352,9 @@ def _grep_text(pattern: patterns.Pattern, text: str, color: bool) -> typ.Iterabl
 
         line_idx   = text[:match_start].count("\n")
         line_start = text.rfind("\n", 0, match_start) + 1
-        line_end   = text.find("\n", match_end, -1)
+        line_end   = text.find("\n", match_end)
+        if line_end < 0:
+            line_end = len(text)
         if color:
             matched_line = (
                 text[line_start:match_start]
@@ -367,7 +369,7 @@ def _grep_text(pattern: patterns.Pattern, text: str, color: bool) -> typ.Iterabl
             )
 
         lines_offset = max(0, line_idx - 1) + 1
-        lines        = all_lines[line_idx - 1 : line_idx + 2]
+        lines        = all_lines[max(0, line_idx - 1) : line_idx + 2]
 
         if line_idx == 0:
             lines[0] = matched_line
